@@ -150,7 +150,7 @@ def h_range(ti: int, si: int, ri: int, m: int, sel: int, c: Optional[int], d: Op
     name = choose(m, ('apply_formatting', 'remove_formatting', 'clip', '__getitem__', 'find_settings'))
     if name is None:
         return None
-    st = choose(sel, SETS)
+    st = choose(sel, SETS[:2])
     if st is None:
         return None
     if name == 'apply_formatting':
@@ -433,10 +433,12 @@ def obligations(tier):
     obs.append(Ob('introspect', h_introspect, {}, need=('all-shared-methods-covered',), budget=60, bounds='dir(AnsiStr) & dir(AnsiString)', kinds=KINDS))
     for m in range(5):
         for ti in (0, 1, 2, 3):
-            f = dict(m=m, ti=ti)
             if ti == 2:
-                f.update(si=0, ri=0)
-            obs.append(Ob('range/m%d/t%d' % (m, ti), h_range, f, need=('range-method',), budget=1500, bounds='text %r' % TEXTS[ti], kinds=KINDS))
+                obs.append(Ob('range/m%d/t2' % m, h_range, dict(m=m, ti=2, si=0, ri=0), need=('range-method',), budget=1500, bounds='empty text', kinds=KINDS))
+                continue
+            for si in range(len(SETS)):
+                obs.append(Ob('range/m%d/t%d/s%d' % (m, ti, si), h_range, dict(m=m, ti=ti, si=si), need=('range-method',), budget=1500,
+                              bounds='text %r, receiver settings %r' % (TEXTS[ti], SETS[si]), kinds=KINDS))
     for m in range(3):
         obs.append(Ob('index/m%d' % m, h_index, dict(m=m), need=('index-method',), budget=900, bounds='5 texts', kinds=KINDS))
     for m, nm in enumerate(SIMPLE_NAMES):
